@@ -1,32 +1,12 @@
 /* unit xml_cursor: type environment (shared header), ghost indices, spec macros and the loop contracts of the cursor layer */
 #include "iora_xml.h"
 
-size_t GS;   /* arbitrary ghost position in the input: "for every position GS ..." without a quantifier */
+#include "contracts.h"
 
 /* readText() contains `return next();` in a branch its own comment calls impossible. next() is not part of this unit:
  * the call is replaced by a contract that REQUIRES FALSE, i.e. the proof shows the call is unreachable under readText's
  * precondition (so there is no recursion readText -> next -> readText). */
 bool Parser_next(Parser *self) __CPROVER_requires(0) __CPROVER_assigns() __CPROVER_ensures(1);
-
-/* ---- C-string arguments of matchString/matchWordCaseInsensitive: NUL within the first 8 bytes (all call sites pass literals of
- *      2 and 7 characters); loop-free strlen and prefix comparison ---- */
-#define XML_SLEN(s) ((s)[0] == 0 ? (size_t)0 : (s)[1] == 0 ? (size_t)1 : (s)[2] == 0 ? (size_t)2 : (s)[3] == 0 ? (size_t)3 : (s)[4] == 0 ? (size_t)4 \
-                    : (s)[5] == 0 ? (size_t)5 : (s)[6] == 0 ? (size_t)6 : (s)[7] == 0 ? (size_t)7 : (size_t)8)
-#define XML_EQ(a, b) ((a) == (b))
-#define XML_LOWER(c) (((c) >= (char)65 && (c) <= (char)90) ? (char)((c) + 32) : (c))
-#define XML_CIEQ(a, b) (XML_LOWER(a) == XML_LOWER(b))
-/* the first i (<= 7) bytes of the input at `base` equal s[0..i) under EQ */
-#define XML_PFX(slf, base, s, i, EQ) ( ((i) <= 0 || EQ(XML_AT(slf, (base) + 0), (s)[0])) && ((i) <= 1 || EQ(XML_AT(slf, (base) + 1), (s)[1])) \
-  && ((i) <= 2 || EQ(XML_AT(slf, (base) + 2), (s)[2])) && ((i) <= 3 || EQ(XML_AT(slf, (base) + 3), (s)[3])) && ((i) <= 4 || EQ(XML_AT(slf, (base) + 4), (s)[4])) \
-  && ((i) <= 5 || EQ(XML_AT(slf, (base) + 5), (s)[5])) && ((i) <= 6 || EQ(XML_AT(slf, (base) + 6), (s)[6])) )
-/* the whole C string s occurs at `base` */
-#define XML_MATCH(slf, base, s, EQ) ((base) <= (slf)->_input.n && XML_SLEN(s) <= (slf)->_input.n - (base) && XML_PFX(slf, base, s, XML_SLEN(s), EQ))
-/* word boundary demanded by matchWordCaseInsensitive: a byte is present at k and it is white space, '>' or '[' */
-#define XML_BOUNDARY(slf, k) ((k) < (slf)->_input.n && (XML_IS_SPACE(XML_AT(slf, k)) || XML_AT(slf, k) == (char)62 || XML_AT(slf, k) == (char)91))
-
-/* the string_view E (1..4 bytes) occurs in the input at position k */
-#define XML_SEQ_AT(slf, k, E) ((k) <= (slf)->_input.n && (E).n <= (slf)->_input.n - (k) && ((E).n < 1 || XML_AT(slf, k) == (E).p[0]) \
-  && ((E).n < 2 || XML_AT(slf, (k) + 1) == (E).p[1]) && ((E).n < 3 || XML_AT(slf, (k) + 2) == (E).p[2]) && ((E).n < 4 || XML_AT(slf, (k) + 3) == (E).p[3]))
 
 /* ---- loop contracts ---- */
 #define XML_CUR_FRAME __CPROVER_assigns(self->_cur, self->_line, self->_col)
